@@ -86,6 +86,7 @@ for line in sys.stdin:
     src = case["src"]
     EVENTS.clear()
     t0 = time.time()
+    c0 = time.process_time()
     ACTIVE = True
     try:
         try:
@@ -102,6 +103,7 @@ for line in sys.stdin:
     finally:
         ACTIVE = False
     wall = time.time() - t0
+    cpu = time.process_time() - c0
     state_changed = False
     st = module_state()
     if st != STATE0:
@@ -123,6 +125,6 @@ for line in sys.stdin:
             os.environ.clear()
             os.environ.update(saved_env)
             os.chdir(saved_cwd)
-    rec = {"id": case.get("id"), "outcome": outcome, "detail": detail, "wall": round(wall, 4), "events": EVENTS[:6], "state_changed": state_changed, "env_dependent": env_dependent}
+    rec = {"id": case.get("id"), "outcome": outcome, "detail": detail, "wall": round(wall, 4), "cpu": round(cpu, 4), "events": EVENTS[:6], "state_changed": state_changed, "env_dependent": env_dependent}
     sys.stdout.write(json.dumps(rec) + "\n")
     sys.stdout.flush()
